@@ -32,7 +32,7 @@ func c12Bomb(rec *vcommon.Rec, name string) {
 	desc := c12Case{Side: "bomb", Seed: rec.Seed(), Bomb: name, Domain: c12Domains[0], Qtype: mdns.TypeCNAME}
 	fx, err := c12NewFx(c12Domains[0], mdns.TypeCNAME, rec.Seed())
 	if err != nil {
-		rec.Violation("server:fixture:session-setup-failed", desc, err.Error())
+		rec.Inconclusive("fixture: the sessions could not be established: "+err.Error(), desc)
 		return
 	}
 	var m0 runtime.MemStats
